@@ -3,3 +3,4 @@ import SMD.Model.Path
 import SMD.Model.SetTrie
 import SMD.Model.Wire
 import SMD.Properties.All
+import SMD.Spec.SetWF
